@@ -36,6 +36,10 @@ GEN = {
         ["vdivpd %ymm1, %ymm2, %ymm3"] * 30,
         ["jmp .L1", "addq $1, %rax"],
         [".L1:", "# comment only", "addq $1, %rax", ".align 16", "subq $1, %rbx", "jne .L1"],
+        # an unknown line next to forms whose model entry lacks only ONE of throughput / latency (zen1 sqrtsd, pop; ivb/hsw forms)
+        ["vaddpd %xmm1, %xmm0, %xmm2", "sqrtsd %xmm3, %xmm4", "foobar %rax, %rbx", "popq %rax", "addq $1, %rax"],
+        ["sqrtsd %xmm3, %xmm4", "rcpss %xmm1, %xmm2", "addq $1, %rax"],
+        # no-arch + large unmarked file: both warnings are due at once
     ],
     "aarch64": [
         ["add x1, x1, #1", "add x2, x1, x2", "fadd d0, d1, d0"],
@@ -47,6 +51,8 @@ GEN = {
         ["fdiv d0, d1, d2"] * 25,
         ["fmla v0.2d, v1.2d, v2.2d"] * 14 + ["add x1, x1, #1"],
         [".L1:", "// comment only", "add x1, x1, #1", "b.ne .L1"],
+        # an unknown line next to forms whose model entry lacks only the latency (ret on a64fx/tx2/m1/v2, fmov on tx2/n1)
+        ["frobnicate x3, x4", "add x1, x1, #1", "subs x2, x2, #1", "fmov d1, d2", "ret"],
     ],
 }
 
@@ -280,11 +286,17 @@ def main():
             for arch in archs:
                 for fixed in (False, True):
                     for ignore in (False, True):
+                        # thorough: every model; the option combinations other than the default one only on the models of the
+                        # quick tier and on generated kernels (keeps the sweep within the time limit)
+                        if A.tier == "thorough" and (fixed or ignore) and arch not in ("zen2", "hsw", "a64fx", "tx2") and not name.startswith("generated"):
+                            continue
                         cases.append((name, code, isa, arch, fixed, ignore, True))
             cases.append((name, code, isa, DEFAULTS[isa], False, False, False))
     big = "\n".join(["addq $1, %rax"] * 101) + "\n"
     cases.append(("generated-large-unmarked", big, "x86", "zen2", True, False, True))
     cases.append(("generated-large-marked", "# OSACA-BEGIN\n" + big + "# OSACA-END\n", "x86", "zen2", True, False, True))
+    cases.append(("generated-large-unmarked-no-arch", big, "x86", DEFAULTS["x86"], True, False, False))  # both warnings at once
+    cases.append(("generated-large-unmarked-no-arch-a64", "\n".join(["add x1, x1, #1"] * 120) + "\n", "aarch64", DEFAULTS["aarch64"], True, False, False))
     for isa, archs in (("x86", X86), ("aarch64", A64)):  # warm the model caches sequentially (see dg_oracle.py)
         for arch in archs + [DEFAULTS[isa]]:
             try:
